@@ -763,7 +763,9 @@ func scenarios(res *report.Result) []schedrun.Scenario {
 		add(2, cp2, ep2, func(c []cop, e []eop) int { return 1 })
 	} else {
 		add(1, cp, ep, func(c []cop, e []eop) int {
-			if len(c) <= 2 && len(e) == 1 {
+			// two deviations on the smallest programs (one or two publishes, one event) only (every channel has three goroutines in
+			// the watcher since the repair f4261e2; the rest of the bound-2 family is thorough)
+			if len(e) == 1 && (len(c) == 1 || len(c) == 2 && c[0].Kind == "pub" && c[1].Kind == "pub") {
 				return 2
 			}
 			return 1
